@@ -312,7 +312,7 @@ def c06(tier: str) -> int:
 # C07: supply routes
 # ---------------------------------------------------------------------------
 ROUTES = ['xml', 'gz', 'xz', 'pkg', 'coll', 'tar', 'tar.gz', 'tar.xz', 'tarpkg', 'tarpkg.gz',
-          'tarpkg.xz', 'tarcoll.xz', 'mem']
+          'tarpkg.xz', 'tarcoll.xz', 'mem', 'gz2', 'xz2']
 
 
 def project_trees(rng, n):
@@ -383,7 +383,7 @@ def c07(tier: str) -> int:
                          'ops': [['add', n, 'memobj'], ['remove', '*'], ['add', n, 'memobj'],
                                  ['remove', '*'], ['add', n, 'xml']]})
         for f in ILI_T:
-            for route in ('xml', 'gz', 'xz', 'pkg', 'tar.gz', 'tarpkg'):
+            for route in ('xml', 'gz', 'xz', 'pkg', 'tar.gz', 'tarpkg', 'gz2'):
                 jobs.append({'mode': 'walkfrom', 'snap': snaps[sname],
                              'ops': [['ili', f, route], ['ili', f, 'xml']]})
         for route in ('coll', 'tarcoll', 'tarcoll.gz', 'tarcoll.xz'):
